@@ -901,6 +901,10 @@ class MapType(_ParameterizedType):
                 keybytes = byts[p:p + key_len]
                 p += key_len
                 key = key_type.from_binary(keybytes, inner_proto)
+                if key_type.subtypes:
+                    # lookups serialize the decoded key; a decoded set is sorted, which need
+                    # not be the order of the elements on the wire
+                    keybytes = key_type.to_binary(key, inner_proto)
 
             val_len = unpack(byts[p:p + length])
             p += length
